@@ -12,7 +12,8 @@ Text layer — SPEC of the Conan version-range notation
 
 The upper bounds of `~` and `^` are `upper_bound(index)`: the items before `index`, the item at
 `index` plus one, and a trailing `-` ("below every pre-release of it"): `~1.2.3` is
-`>=1.2.3 <1.3-`, `^1.2.3` is `>=1.2.3 <2-`, `^0.1.2` is `>=0.1.2 <0.2-`.
+`>=1.2.3 <1.3-`, `^1.2.3` is `>=1.2.3 <2-`, `^0.1.2` is `>=0.1.2 <0.2-`, `^0.0` is `>=0.0 <0.1-` (all items zero:
+the last one is bumped).
 
 Also here: `numOps`, a LOCAL instance of the version interface on plain dotted numeric versions
 (`1.2.3`; and `1.3-`, the shape of an upper bound), used to state the exactness theorems in closed
@@ -186,8 +187,9 @@ def rangeMeaning {V : Type} (o : ConanOps V) (pre : Bool) : List Alt → Except 
       | .error err => .error err
       | .ok ss => .ok (s :: ss)
 
-/-- the errors that the ecosystem-independent contract allows (the `ValueError` family) -/
-def declared (e : TErr) : Bool := e.declared
+/-- the errors this converter declares: the `ValueError` family and `ConanException`, the
+library's own error for a range it cannot read -/
+def declared (e : TErr) : Bool := e.declared || e == errConan
 
 /-! ### plain dotted numeric versions: a local version interface -/
 
@@ -213,6 +215,11 @@ def numItems (t : List Char) : Option (List Nat) :=
   let parts := splitOn '.' t
   if parts.all isNum then some (parts.map natVal) else none
 
+/-- `first_non_zero` on a list of numbers: the index of the first non-zero one, else the last index -/
+def firstNZ (ns : List Nat) : Nat :=
+  let i := ns.findIdx (fun n => n != 0)
+  if i = ns.length then ns.length - 1 else i
+
 /-- the local interface: versions are their texts; meaningful on plain dotted numeric texts only
 (anything else is answered with the error `NotNumeric`, which no real code raises) -/
 def numOps : ConanOps (List Char) where
@@ -221,7 +228,7 @@ def numOps : ConanOps (List Char) where
   mainLen t := (splitOn '.' t).length
   firstNonZero t :=
     match numItems t with
-    | some ns => ns.findIdx (fun n => n != 0)
+    | some ns => firstNZ ns
     | none => 0
   upperBound t i :=
     match numItems t with
